@@ -50,16 +50,16 @@ theorem fromSparse_sorted (cells : List (Nat × Nat × α)) (hs : cells.Pairwise
         unfold posLt at this; omega
     have hgl : cells.getLast?.getD c0 = cells.getLast hne := by
       rw [List.getLast?_eq_some_getLast hne]; rfl
-    have hpre : sparsePre cells := by
-      rw [hcells]; simp only [sparsePre]; rw [← hcells, hgl]
+    have hpre : sparsePreSorted cells := by
+      rw [hcells]; simp only [sparsePreSorted]; rw [← hcells, hgl]
       refine ⟨fun c hc => ⟨hc0 c hc, hlast c hc, ?_, ?_⟩, ?_, ?_⟩
       · have := (hb c hc).1; simp only [U32]; omega
       · have := (hb c hc).2; simp only [U32]; omega
       · have := (hb _ (List.getLast_mem hne)).1; simp only [U32]; omega
       · intro c hc c' hc'
         have := (hb c' hc').2; simp only [U32]; omega
-    obtain ⟨r, hr⟩ := fromSparse_of_pre cells hpre
-    obtain ⟨hpos, hsr, her, hmem, hec, hsc, _⟩ := fromSparse_spec cells hne r hr
+    obtain ⟨r, hr⟩ := fromSparse_of_pre cells (sparsePre_of_old cells hpre)
+    obtain ⟨hpos, hsr, her, hmem, hec, hsc, _⟩ := fromSparse_spec cells hne r hr (rowsBetween_of_old cells hne hpre)
     rw [← hcells]
     refine ⟨r, hr, fun h => absurd h hne, fun _ => ⟨hpos, ?_, ?_, ?_, ?_, hec⟩, ?_, ?_⟩
     · intro c hc
@@ -80,7 +80,7 @@ theorem fromSparse_sorted (cells : List (Nat × Nat × α)) (hs : cells.Pairwise
         have h2 := (List.pairwise_cons.mp h1).1 c' hc'
         unfold posLt at h2; omega
       rw [e] at hr
-      exact fromSparse_last_wins l1 l2 c r hr hrow hl2
+      exact fromSparse_last_wins l1 l2 c r hr hl2
     · intro p q hno
       exact fromSparse_untouched cells r hr p q hno
 
